@@ -70,7 +70,7 @@ PROPS = {
         assumptions=[],
     ),
     "C01": dict(
-        modules=["Gopki.Props.C01"], theorems=['C01.C01_mismatch_fails', 'C01.C01_no_issuer_key_fails', 'C01.C01_signs_with_issuer', 'C01.C01_ski_is_sha1', 'C01.C01_aki_is_sha1', 'Conv.run_converges', 'Forest.bfs_main'], ops=["pki", "hist"],
+        modules=["Gopki.Props.C01"], theorems=['C01.C01_issuer_dn_bytes_identical', 'C01.C01_mismatch_fails', 'C01.C01_no_issuer_key_fails', 'C01.C01_signs_with_issuer', 'C01.C01_ski_is_sha1', 'C01.C01_aki_is_sha1', 'Conv.run_converges', 'Forest.bfs_main'], ops=["pki", "hist"],
         rule="pki: forests of 1-5 entities (random parent vector, nested directories, yaml/yml/json), every key algorithm except RSA>=2048 in quick, configured/omitted signature algorithms, "
              "subjects from the documented grammar incl. UTF-8 and custom OIDs, 0-6 extensions of all 11 kinds, serials, unique ids, validity forms, manipulations in 1 of 5 forests, 6 zone offsets, 5 flag sets; "
              "non-trivial = at least one certificate generated; every generated certificate is compared byte for byte with the model and read by the strict decoder",
@@ -79,7 +79,7 @@ PROPS = {
         assumptions=["Crypto laws: a signature made with a private key verifies under its public key; ECDSA/RSA key type is what the key's Go type says"],
     ),
     "C02": dict(
-        modules=['Gopki.Props.C02', 'Gopki.Props.Tags'], theorems=['C02.C02_reencode_identity', 'C02.C02_model_cert_decodable', 'C02.C02_model_tbs_canonical', 'C02.C02_model_cert_canonical', 'C02.C02_model_cert_roundtrip', 'CertRound.decTbs_tbsTlv', 'CertWf.tbsOk_of_tbsOkB', 'C02.C02_sigAlg_ok', 'CertWf.good_tbs', 'CertWf.oidContent_canonical', 'CertWf.intBytes_canonical', 'Der.wf_of_tagsOk', 'C02.C02_algid_params', 'C02.C02_inner_eq_outer', 'C02.C02_version_v3', 'C02.C02_serial_source', 'C02.C02_serial_len', 'C02.C02_time_form', 'C02.C02_time_roundtrip', 'Der.dec_sound', 'Der.dec_enc', 'Tags.tags_certificate'], ops=['pki', 'hist'],
+        modules=['Gopki.Props.C02', 'Gopki.Props.Tags'], theorems=['C02.C02_reencode_identity', 'C02.C02_model_cert_decodable', 'C02.C02_model_tbs_canonical', 'C02.C02_model_cert_canonical', 'C02.C02_model_cert_roundtrip', 'C02.C02_issued_certificate_canonical_and_readable', 'CertPipeline.signBody_tbsOk', 'CertRound.decTbs_tbsTlv', 'CertWf.tbsOk_of_tbsOkB', 'C02.C02_sigAlg_ok', 'CertWf.good_tbs', 'CertWf.oidContent_canonical', 'CertWf.intBytes_canonical', 'Der.wf_of_tagsOk', 'C02.C02_algid_params', 'C02.C02_inner_eq_outer', 'C02.C02_version_v3', 'C02.C02_serial_source', 'C02.C02_serial_len', 'C02.C02_time_form', 'C02.C02_time_roundtrip', 'Der.dec_sound', 'Der.dec_enc', 'Tags.tags_certificate'], ops=['pki', 'hist'],
         rule="pki: forests of 1-5 entities (random parent vector, nested directories, yaml/yml/json), every key algorithm except RSA>=2048 in quick, configured/omitted signature algorithms, "
              "subjects from the documented grammar incl. UTF-8 and custom OIDs, 0-6 extensions of all 11 kinds, serials, unique ids, validity forms, manipulations in 1 of 5 forests, 6 zone offsets, 5 flag sets; "
              "every generated certificate is compared byte for byte with the model and read by the strict decoder; non-trivial = at least one certificate generated",
@@ -188,7 +188,7 @@ PROPS = {
         assumptions=[],
     ),
     "C20": dict(
-        modules=['Gopki.Props.C20', 'Gopki.Props.C19'], theorems=['C20.C20_oid_range', 'C20.C20_hash_total', 'C20.C20_rfc3339_total', 'C19.C19_apply_total'], ops=["crash", "pkcs8", "pemfile", "rdn", "raw"], sites=True,
+        modules=['Gopki.Props.C20', 'Gopki.Props.C19', 'Gopki.Props.C18'], theorems=['C20.C20_oid_range', 'C20.C20_hash_total', 'C20.C20_rfc3339_total', 'C19.C19_apply_total', 'C18.C18_config_names_have_artifacts'], ops=["crash", "pkcs8", "pemfile", "rdn", "raw"], sites=True,
         rule="crash (search support, not proof): hostile values (empty, huge, malformed OIDs/dates/raw strings, extreme integers) substituted into generated forests with profiles at rates 1/6..1/30 x all 32 flag sets; "
              "byte-level mutations of configuration text; root->sub with every pair of 16 artifact states (absent, garbage PEM blocks, odd hash lines, foreign key types) x flag sets; gopki-written artifacts stripped/truncated/mutated x flag sets; "
              "plus the unit operations of C03/C06/C17 run under recover; the panic-site inventory of the anchored files is regenerated and compared with panic_sites.expected.json; non-trivial = every case (outcome class recorded)",
